@@ -1255,6 +1255,78 @@ native_f!(native_f_long, GLong, 256, 64, 1);
 #[cfg(test)]
 native_f!(native_f_longl, GLongL, 256, 64, 3);
 
+/// Native side of run/mirq.py (MIR -> SMT check of the Q-ratio arithmetic at full width).
+///
+/// Runs the REAL `finalize_with_options` of three variants on generator states whose three order
+/// statistics are the given `(q1, q2, q3)` (all permissive flags on, so that `q3 == 0` takes the
+/// dummy-quartile path), prints `QR q1 q2 q3 pure_int value` for the translator validation, and
+/// compares with the hand-written reference `ref_qratio` (the replay of a solver counterexample:
+/// a mismatch panics).  The triples come from `VERIF_QR` ("q1,q2,q3,pure_int;...") or, when it is
+/// not set, from a fixed table that includes counts >= 2^24, >= 2^31 and a wrapping product.
+#[cfg(test)]
+#[test]
+fn native_qr_replay() {
+    let mut triples: Vec<(u32, u32, u32, bool)> = Vec::new();
+    if let Ok(v) = std::env::var("VERIF_QR") {
+        for item in v.split(';').filter(|x| !x.is_empty()) {
+            let f: Vec<&str> = item.split(',').collect();
+            triples.push((
+                f[0].trim().parse().unwrap(),
+                f[1].trim().parse().unwrap(),
+                f[2].trim().parse().unwrap(),
+                f[3].trim() == "1" || f[3].trim() == "true",
+            ));
+        }
+    } else {
+        let base: [(u32, u32, u32); 20] = [
+            (0, 0, 0), (0, 0, 1), (1, 1, 1), (1, 2, 3), (3, 5, 7), (10, 20, 30), (41, 41, 41),
+            (49, 98, 147), (100, 200, 255), (1000, 2000, 3001), (16_777_215, 16_777_216, 16_777_217),
+            (16_777_300, 33_554_500, 50_000_001), (42_949_672, 42_949_673, 42_949_674),
+            (43_000_000, 90_000_000, 123_456_789), (126_163_947, 133_037_356, 137_134_337),
+            (672_415_810, 1_460_289_056, 1_610_612_800), (2_147_483_647, 2_147_483_648, 2_147_483_649),
+            (2_188_420_055, 2_197_815_335, 4_093_640_832), (4_294_967_293, 4_294_967_294, 4_294_967_295),
+            (25_886_566, 555_728_982, 673_554_379),
+        ];
+        for &(a, b, c) in base.iter() {
+            triples.push((a, b, c, false));
+            triples.push((a, b, c, true));
+        }
+    }
+    macro_rules! one {
+        ($ty:ty, $nb:literal, $q1:expr, $q2:expr, $q3:expr, $pint:expr) => {{
+            let mut g = <$ty>::default();
+            for i in 0..$nb {
+                g.buckets.buckets[i] = if i < $nb / 4 {
+                    $q1
+                } else if i < $nb / 2 {
+                    $q2
+                } else {
+                    $q3
+                };
+            }
+            g.len = 1000;
+            g.tail_len = 4;
+            let mut o = GeneratorOptions::new();
+            o.length_processing_mode(DataLengthProcessingMode::Optimistic)
+                .pure_integer_qratio_computation($pint)
+                .allow_small_size_files(true)
+                .allow_statistically_weak_buckets_half(true)
+                .allow_statistically_weak_buckets_quarter(true);
+            g.finalize_with_options(&o).expect("all permissive flags are on").qratios().value()
+        }};
+    }
+    for &(q1, q2, q3, pint) in triples.iter() {
+        assert!(q1 <= q2 && q2 <= q3, "quartiles must be ordered");
+        let v = one!(GShort, 48, q1, q2, q3, pint);
+        println!("QR {} {} {} {} {}", q1, q2, q3, pint as u8, v);
+        let (r1, r2, r3) = if q3 == 0 { (1, 1, 1) } else { (q1, q2, q3) };
+        let e = ref_qratio(r2, r3, pint, 0) << 4 | ref_qratio(r1, r3, pint, 0);
+        assert_eq!(v, e, "Q ratios of ({q1},{q2},{q3}) pure_int={pint}: real code {v:#x}, reference {e:#x}");
+        assert_eq!(one!(GNormal, 128, q1, q2, q3, pint), e, "Normal ({q1},{q2},{q3}) {pint}");
+        assert_eq!(one!(GLong, 256, q1, q2, q3, pint), e, "Long ({q1},{q2},{q3}) {pint}");
+    }
+}
+
 /// Native confirmation for `c18_gen_*` (fast path instead of Kani's playback generator, which
 /// needs tens of minutes for the 256-bucket instance): the generator operations of all five
 /// variants under the counting allocator of the replay build.
